@@ -68,7 +68,8 @@ META = {
         "multiply.s and multiply_bmi2_adx.s (bigint_768_multiply, bigint_768_square, fpbase_384_montgomery_reduce, both variants): WORD back end over the machine code; products / squares are exact polynomial identities for all operands; Montgomery reduction for p = q, inv = the library's constant, t < p*R: identity exact on every path, result < p by z3 (linear arithmetic over the rationals on the recorded word-range facts: sound for the integers); carries that an interval cannot exclude are excluded by the same prover or stay symbolic",
         "result and operands of the 768-bit routines are distinct objects (the C++ signatures say __restrict; call sites: C18)",
         "portable C++ with 32-bit words: the unity TU is dumped a second time with -U__SIZEOF_INT128__ (word_t = uint32_t, dword_t = uint64_t, the selection made by include/core/bigint.hpp); the 384- and 256-bit linear-layer units are re-run on that AST with the SAME contract text (the VALn readings are the same integers; only shift_right_in_word's returned bit sits at bit 31), multiply / square / Montgomery with the same word-level statements",
-        "NOT covered (reported, never claimed): the CPUID probe and the run-time dispatch pointers of runtime.cpp, AArch64 and ARMv6-M sources",
+        "AArch64 (src/core/arch/aarch64/bigint.s, multiply.s; eight routines): WORD back end over the SOURCE TEXT -- tools/armword.py expands the .macro bodies itself and interprets ldp/stp/adds/adcs/subs/sbcs/mul/umulh/cmp/cset/b.cc (no AArch64 assembler or emulator in the sandbox, so neither the encoding nor a native run is available; the front end and the semantics table are trusted); the compare / conditional-subtract tail is proved on an abstracted state (every live word a fresh symbol, one fact T < 2p carried over), i.e. for more states than can occur",
+        "NOT covered (reported, never claimed): the CPUID probe and the run-time dispatch pointers of runtime.cpp, the ARMv6-M sources",
         "bit-identity of the back ends is the corollary of every back end meeting the same deterministic postcondition"]),
     "C07": dict(level="proof", assumptions=GROUP_ASSUME + [
         "GT in the exponent view: multiply / square_cyclotomic / conjugate / inverse act as +, *2, -, - on discrete logs (C04 for the field operations; Granger-Scott squaring and conj = inverse on the cyclotomic subgroup are trusted)",
